@@ -378,7 +378,7 @@ def summarize(b):
                    so.raftCommitIndex, so.raftLastApplied, log, log[0][0] if log else None, log[-1][0] if log else None,
                    app, frozenset(n.id for n in so.otherNodes), frozenset(b.tr.connected),
                    frozenset(b.tr.ro_local), so.getCodeVersion(), so.selfNode is not None, so.isReady(),
-                   tuple(sorted(b.extra.items())))
+                   tuple(sorted(b.extra.items())) + (('quorum', bool(so.hasQuorum)),))
 
 
 def decode_cmd(cmd):
@@ -417,7 +417,7 @@ class Config(object):
     def __init__(self, n=3, observers=0, batch=True, batch_bytes=2 ** 16, chunk=2 ** 16, journal=None,
                  dyn=False, obj='list', period=0.01, tmin=0.04, tmax=0.05, fallback=1e9, wait_leader=True,
                  qsize=1000, min_entries=1000000, exact_time=False, fuse=False, members=None, conf_extra=None,
-                 consumers=None, use_fork=False, h_all=False):
+                 consumers=None, use_fork=False, h_all=False, methods=()):
         self.n = n
         self.observers = observers
         self.batch = batch
@@ -439,6 +439,7 @@ class Config(object):
         self.conf_extra = conf_extra or {}
         self.consumers = consumers
         self.use_fork = use_fork
+        self.methods = tuple(methods)   # extra replicated methods offered as submissions (besides put)
         self.h_all = h_all              # heartbeat-sized time steps on non-leaders too
 
     def voter_ids(self):
@@ -551,6 +552,8 @@ def run_event(b, ev, cfg, kill_at=None):
             seams.CLOCK[0] += ev[1]
             if len(ev) > 2 and ev[2]:
                 seams.CLOCK_DRIFT[0] = ev[2]
+            if len(ev) > 3:
+                seams.RAND[0] = ev[3]
             b.so._onTick(0.0)
         elif kind == 'msg':
             b.tr.ev_message(ev[1], pickle.loads(ev[2]))
@@ -562,6 +565,10 @@ def run_event(b, ev, cfg, kill_at=None):
             # ('put', sid, method, args, kwargs)
             sid = ev[1]
             getattr(b.so, ev[2])(sid, *ev[3], callback=functools.partial(b.rec.cb, sid), **dict(ev[4]))
+        elif kind == 'putp':
+            sid = ev[1]
+            a, kw = pickle.loads(ev[3])
+            getattr(b.so, ev[2])(sid, *a, callback=functools.partial(b.rec.cb, sid), **kw)
         elif kind == 'compact':
             b.so.forceLogCompaction()
         elif kind == 'member':
@@ -735,6 +742,8 @@ class ClusterModel(object):
                 evs.append(('W', n))
             if bud['S'] > 0:
                 evs.append(('S', n))
+                for meth in self.cfg.methods:
+                    evs.append(('SM', n, meth))
             if bud['K'] > 0:
                 evs.append(('K', n))
         for (a, b), q in w.links:
@@ -824,7 +833,9 @@ class ClusterModel(object):
         if kind == 'W':
             b = self.spend(w, 'W')
             return b and self.node_step(w, ev[1], ('tick', cfg.period + EPS, cfg.period / 2.0), budget=b, label=ev)
-        if kind == 'T':   # explicit dt (scripts, closing runs); no budget
+        if kind == 'T':   # explicit dt [and random() answer] (scripts, closing runs); no budget
+            if len(ev) > 3:
+                return self.node_step(w, ev[1], ('tick', ev[2], 0.0, ev[3]), label=ev)
             return self.node_step(w, ev[1], ('tick', ev[2]), label=ev)
         if kind == 'D':
             a, b2 = ev[1], ev[2]
@@ -870,6 +881,13 @@ class ClusterModel(object):
                 return None
             sid = w.nsub
             return self.node_step(w, ev[1], ('put', sid, 'put', (), ()), budget=bud, nsub=w.nsub + 1, label=ev)
+        if kind == 'SM':
+            bud = self.spend(w, 'S') if len(ev) < 4 else w.budget
+            if bud is None:
+                return None
+            return self.node_step(w, ev[1], ('put', w.nsub, ev[2], (), ()), budget=bud, nsub=w.nsub + 1, label=ev)
+        if kind == 'SA':   # ('SA', node, pickled (args, kwargs)): put with explicit arguments, no budget
+            return self.node_step(w, ev[1], ('putp', w.nsub, 'put', ev[2]), nsub=w.nsub + 1, label=ev)
         if kind == 'K':
             bud = self.spend(w, 'K') if len(ev) < 3 else w.budget
             return bud and self.node_step(w, ev[1], ('compact',), budget=bud, label=ev)
@@ -903,8 +921,8 @@ class ClusterModel(object):
             self.prefix_events.append(ev)
             w = nw
             if v:
-                raise core.Violation('during seed prefix %r: %s' % (self.prefix_events, v.msg if isinstance(v, core.Violation) else v),
-                                     sig=getattr(v, 'sig', None))
+                raise core.Violation('%s [in state %d of the scripted seed prefix]' % (
+                    v.msg if isinstance(v, core.Violation) else v, len(self.prefix_events)), sig=getattr(v, 'sig', None))
         return w
 
     def connect_all(self, w, only=None):
@@ -959,6 +977,21 @@ class ClusterModel(object):
     def leader_of(self, w):
         ls = [s.nid for s in self.summaries(w) if s.alive and s.leader_flag]
         return ls[0] if len(ls) == 1 else None
+
+
+def tick_dt(cfg, ev):
+    k = ev[0]
+    if k == 'Z':
+        return 0.0
+    if k == 'H' or k == 'W':
+        return cfg.period + EPS
+    if k == 'E':
+        return cfg.tmin + EPS
+    if k == 'F':
+        return cfg.fallback + EPS
+    if k == 'T':
+        return ev[2]
+    return None
 
 
 class Monitor(object):
